@@ -87,7 +87,12 @@ def do_check(prop, args, seed):
     shapes = [shapes[i] for i in order]
     if args.limit:
         shapes = shapes[:args.limit]
+    if args.tier == 'thorough' and not args.mutant:
+        os.environ.setdefault('VERIF_CROSSCHECK', '40')
     results = run_all(prop, shapes, args, mutant=args.mutant)
+    cross = core.cross_check([f for r in results for f in r.get('cross', [])]) if os.environ.get('VERIF_CROSSCHECK', '0') not in ('', '0') else None
+    for d in (cross or {}).get('disagreements', [])[:3]:
+        print("SOLVER DISAGREEMENT %s said %s, z3 5.1 said %s" % (d['solver'], d['said'], d['z3_5_1']), file=sys.stderr)
     OR = loader.load_orig(prop.MODULES)
     prop.setup_orig(OR)
     known, fixed = core.load_known(prop.ID)
@@ -103,7 +108,7 @@ def do_check(prop, args, seed):
                 continue
             seen.add(key)
             try:
-                bad, cobs = core.replay_record(prop, OR, r['shape'], cinp)
+                bad, cobs = core.replay_record(prop, OR, r['shape'], cinp, clause=ce.get('clause'))
             except BaseException as exc:
                 nonrepro.append(dict(shape=r['shape'], input=ce['input'], error=repr(exc)))
                 continue
@@ -142,7 +147,7 @@ def do_check(prop, args, seed):
     wall = time.time() - t0
     if not args.no_evidence and not args.mutant and not args.limit:
         write_evidence(prop, args.tier, seed, results, violations, known_hits, inconclusive, mismatches, nonrepro, wall,
-                       tv=(tv_n, len(tv_bad)))
+                       tv=(tv_n, len(tv_bad)), cross=cross)
     tot_paths = sum(r['paths'] for r in results)
     print("property=%s tier=%s shapes=%d paths=%d queries=%d validated=%d solver_s=%.1f wall=%.1fs violations=%d known=%d inconclusive=%d" % (
         prop.ID, args.tier, len(results), tot_paths, sum(r['queries'] for r in results),
@@ -151,12 +156,12 @@ def do_check(prop, args, seed):
         len(inconclusive) + len(mismatches) + len(nonrepro)))
     if violations:
         return core.EXIT_VIOLATION
-    if inconclusive or mismatches or nonrepro or tv_bad:
+    if inconclusive or mismatches or nonrepro or tv_bad or (cross and cross['disagreements']):
         return core.EXIT_INCONCLUSIVE
     return core.EXIT_OK
 
 
-def write_evidence(prop, tier, seed, results, violations, known_hits, inconclusive, mismatches, nonrepro, wall, tv=(0, 0)):
+def write_evidence(prop, tier, seed, results, violations, known_hits, inconclusive, mismatches, nonrepro, wall, tv=(0, 0), cross=None):
     cov = set()
     for r in results:
         cov.update(tuple(x) for x in r.get('cov', []))
@@ -198,6 +203,7 @@ def write_evidence(prop, tier, seed, results, violations, known_hits, inconclusi
             known_findings={k: len(v) for k, v in known_hits.items()},
             extra=_sum_extra(results),
             translator_validation=dict(runs_on_repo_test_strings=tv[0], disagreements=tv[1]),
+            cross_solver=({k: (v if k != 'disagreements' else len(v)) for k, v in cross.items()} if cross else 'not run in this tier'),
             inconclusive=len(inconclusive) + len(mismatches) + len(nonrepro),
         ),
         assumptions=prop.ASSUMPTIONS,
